@@ -124,6 +124,12 @@ def run_unit(unit, workdir):
         st = "verified"
         failed = []
         for d in by_fn.get(id(i), []):
+            if i.unproved_from_line is not None and d.kind in ("refuted", "undecided"):
+                prim = [l[0] for l in d.lines if l[3]] or [l[0] for l in d.lines]
+                if prim and all(i.unproved_from_line <= l <= i.unproved_to_line for l in prim if i.line_start <= l <= i.line_end):
+                    res.setdefault("unproved", []).append({"function": i.name, "reason": i.unproved_reason,
+                                                           "verus_message": d.message.split("\n")[0]})
+                    continue
             kind = d.kind
             alll = [l[0] for l in d.lines]
             cl = None
@@ -247,6 +253,7 @@ def report(prop, tier, seed, results, wall, pm):
     times = {}
     probes = {"run": 0, "failed_as_required": 0}
     checker_cmds = []
+    unproved_regions = set()
     for res, infos, text in results:
         if res["verus_cmd"]:
             checker_cmds.append("(cd <scratch>; %s)" % res["verus_cmd"])
@@ -258,6 +265,8 @@ def report(prop, tier, seed, results, wall, pm):
         probes["failed_as_required"] += res["probe"].get("failed_as_required", 0)
         if res["status"] == "undecided":
             undecided.append("%s: %s" % (res["unit"], res["reason"]))
+        for u in res.get("unproved", []):
+            unproved_regions.add("%s: region not proved (%s); covered by the native contracts only" % (u["function"], u["reason"]))
         for fr in res["functions"]:
             i = fr["info"]
             if prop not in i.tags:
@@ -317,7 +326,7 @@ def report(prop, tier, seed, results, wall, pm):
             "vacuity_probes": probes,
             "undecided": undecided,
             "not_decided": pm["properties"][prop].get("not_decided", []),
-            "bounded": pm["properties"][prop].get("bounded", []),
+            "bounded": pm["properties"][prop].get("bounded", []) + sorted(unproved_regions),
             "explanation": pm["properties"][prop].get("explanation", ""),
         },
         "assumptions": pm["properties"][prop].get("assumptions", []),
